@@ -2,21 +2,27 @@
 // Cancel / Clear / Exists, cleanup on termination and restart) on REAL actor systems, the real go-quartz
 // scheduler and REAL time.
 //
-// One case = one scenario: a list of ops with nominal times on a 100 ms slot grid, run on its own ActorSystem.
-// Scheduling calls happen on even slots in one of two lanes (t = 0 or 200 mod 400 ms) with delays and intervals
-// that are multiples of 400 ms, so every ideal firing instant lies on an even slot; everything that is sensitive
-// to firings (Cancel, Clear, Exists, dumps, kill, restart, the final observation) happens on odd slots, 100 ms
-// away from every firing instant; a key (path:reference) is scheduled at most twice, the second time in the
-// other lane (200 ms away from the first job's instants). With these margins the exact delivery counts of the
-// model (prompt quartz loop) are the counts of the implementation unless the process is disturbed by more than
-// the margins; a watchdog measures scheduling gaps and the lateness of every op, and a disturbed scenario is
-// discarded and re-run (never judged).
+// One case = one scenario: a list of ops with nominal times on a 150 ms slot grid, run on its own ActorSystem.
+// Scheduling calls happen on even slots in one of two lanes (t = 0 or 300 mod 600 ms) with delays and intervals
+// that are multiples of 600 ms, so every ideal firing instant lies on an even slot; everything that is sensitive
+// to firings (Cancel, Clear, Exists, dumps, kill, restart, the final observation) happens on odd slots, 150 ms
+// away from every firing instant; a key (path, reference) is scheduled at most twice, the second time in the
+// other lane (300 ms away from the first job's instants). With these margins the exact delivery counts of the
+// model (prompt quartz loop) are the counts of the implementation unless the run is disturbed by more than the
+// margins. Three measurements decide that: a watchdog goroutine (scheduling gaps of the process > 60 ms), the
+// lateness of every op (> 50 ms), and a canary - a 30 ms Loop of the harness's own in the SAME quartz scheduler,
+// whose arrivals must never be more than 75 ms apart (the quartz loop takes jobs in the order of their run
+// times, so the canary bounds the lateness of every tested firing). A disturbed scenario is discarded and
+// re-run (never judged).
 //
 // Calls are made INSIDE handlers of scripted actors (a closure sent as a message), so jobKeys is only touched by
 // its owner's goroutine. Observed: every call's return value, Exists, dumps of every actor's jobKeys (accessor)
-// and of the quartz queue (accessor), and per scheduling call the number of deliveries and of dead letters.
-// Monitors evaluate the property on what the real code did with real timestamps (never early, never after a
-// removal by the owner, never twice, payload / receiver / sender, invalid cron schedules nothing, lost jobs).
+// and of the quartz queue (accessor), and per successful scheduling call the number of deliveries and of dead
+// letters. Monitors evaluate the property on what the real code did with real timestamps (never early, never
+// after a removal by the owner, never twice, payload / receiver / sender, invalid cron schedules nothing, a valid
+// call refused without a live job under the reference, lost jobs).
+// Two child processes are suspended with SIGSTOP across a firing instant (quartz's misfire rule: known finding),
+// a third one schedules a Loop with a negative interval next to a Once (the quartz loop must not spin).
 package main
 
 import (
@@ -123,9 +129,11 @@ type srun struct {
 	results   []lib.T
 	disturbed string
 	stuck     string
+	canary    *canary
 	deathAt   []time.Time // completion of kill per actor
 	cronBad   []string    // violations seen around invalid Cron calls
 	unkCancel []string
+	rejected  []string
 }
 
 type sactor struct {
@@ -204,6 +212,70 @@ func (r *srun) deadLetters(ctx vivid.ActorContext) {
 		}
 		r.mu.Unlock()
 	}
+}
+
+// ---- canary: a 30 ms Loop of the harness's own in the SAME quartz scheduler ----
+// The quartz loop takes jobs in the order of their run times: a tested job due at T has been taken when the
+// first canary firing due at or after T arrives. Canary arrivals never more than canaryTol apart therefore
+// bound the lateness of every tested firing by canaryTol.
+
+type canaryTick struct{}
+
+type canary struct {
+	mu       sync.Mutex
+	arrivals []time.Time
+	started  chan struct{}
+}
+
+const (
+	canaryEvery = 30 * time.Millisecond
+	canaryTol   = 75 * time.Millisecond
+)
+
+func (c *canary) OnReceive(ctx vivid.ActorContext) {
+	switch ctx.Message().(type) {
+	case *vivid.OnLaunch:
+		_ = ctx.Scheduler().Loop(ctx.Ref(), canaryEvery, canaryTick{}, vivid.WithSchedulerReference("canary"))
+	case canaryTick:
+		now := time.Now()
+		c.mu.Lock()
+		c.arrivals = append(c.arrivals, now)
+		n := len(c.arrivals)
+		c.mu.Unlock()
+		if n == 1 {
+			close(c.started)
+		}
+	}
+}
+
+// worst gap between consecutive canary arrivals in [from, to] (including the edges)
+func (c *canary) worstGap(from, to time.Time) time.Duration {
+	c.mu.Lock()
+	defer c.mu.Unlock()
+	worst := time.Duration(0)
+	prev := from
+	seen := false
+	for _, a := range c.arrivals {
+		if a.Before(from) {
+			prev = a
+			seen = true
+			continue
+		}
+		if a.After(to) {
+			break
+		}
+		if seen || a.Sub(prev) > 0 {
+			if g := a.Sub(prev); g > worst {
+				worst = g
+			}
+		}
+		prev = a
+		seen = true
+	}
+	if g := to.Sub(prev); g > worst {
+		worst = g
+	}
+	return worst
 }
 
 // ---- watchdog: scheduling gaps of this process ----
@@ -389,6 +461,21 @@ func (r *srun) exec(o sop) {
 		if c != nil && err == nil { // only a call that returned nil is a scheduled job (and is numbered by the model)
 			r.calls = append(r.calls, c)
 		}
+		if c != nil && err != nil && o.ref != "" && !(o.kind == kOnce && o.d < 0) && !(o.kind == kLoop && o.d <= 0) {
+			// valid arguments: the only legitimate refusal is a job of this actor that is still queued under this reference
+			live := false
+			for _, p := range r.calls {
+				if p.op.actor != o.actor || p.op.ref != o.ref || !p.removedAt.IsZero() {
+					continue
+				}
+				if p.op.kind != kOnce || time.Now().Before(p.end.Add(time.Duration(p.op.d)*time.Millisecond+grace)) {
+					live = true
+				}
+			}
+			if !live {
+				r.rejected = append(r.rejected, fmt.Sprintf("%s returned %v although this actor has no job queued under that reference", describe(r.sc, o), err))
+			}
+		}
 		r.results = append(r.results, lib.N(errCode(err)))
 	case kCancel:
 		var err error
@@ -561,7 +648,17 @@ func runScenario(sc scenario) (*srun, bool) {
 		r.refs = append(r.refs, ref)
 		r.actors = append(r.actors, a)
 	}
-	time.Sleep(5 * time.Millisecond)
+	r.canary = &canary{started: make(chan struct{})}
+	if _, err := sys.ActorOf(r.canary, vivid.WithActorName(canaryName)); err != nil {
+		r.stuck = "canary: " + err.Error()
+		return r, false
+	}
+	select {
+	case <-r.canary.started:
+	case <-time.After(opTimeout):
+		r.stuck = "the canary Loop never fired"
+		return r, false
+	}
 	r.t0 = time.Now()
 	for _, o := range sc.ops {
 		r.exec(o)
@@ -569,9 +666,13 @@ func runScenario(sc scenario) (*srun, bool) {
 			return r, false
 		}
 	}
+	time.Sleep(canaryEvery) // one more canary period, so that the last slot is covered as well
 	endAt := time.Now()
 	if g, ok := gapDuring(r.t0, endAt); ok && r.disturbed == "" {
 		r.disturbed = fmt.Sprintf("a scheduling gap of %v was measured during the scenario", g)
+	}
+	if g := r.canary.worstGap(r.t0, endAt); g > canaryTol && r.disturbed == "" {
+		r.disturbed = fmt.Sprintf("the quartz loop was late: canary arrivals (every %v) %v apart", canaryEvery, g)
 	}
 	r.mu.Lock()
 	r.closed = true
@@ -622,6 +723,9 @@ func (r *srun) judge(observedAt time.Time) []hit {
 	}
 	for _, s := range r.unkCancel {
 		add("c20-cancel-unknown", s)
+	}
+	for _, s := range r.rejected {
+		add("c20-schedule-rejected", s)
 	}
 	for p, ds := range per {
 		c := byP[p]
@@ -859,6 +963,11 @@ func directed() []scenario {
 	out = append(out, newBuilder("directed", "a").
 		badCron(0, "a", "c").sched(0, kCron, "a", "a", "v", 0).op(100, kExists, "a", "c").op(100, kExists, "a", "v").op(100, kDump, "a", "").
 		badCron(300, "a", "v").op(300, kCancel, "a", "c").op(300, kCancel, "a", "v").op(300, kCancel, "a", "v").done(500))
+	// rejected arguments: negative delay, non-positive interval, empty reference, live reference; nothing is scheduled
+	out = append(out, newBuilder("directed", "a").
+		sched(0, kOnce, "a", "a", "n", -1000).sched(0, kLoop, "a", "a", "z", 0).sched(0, kLoop, "a", "a", "m", -1000).sched(0, kOnce, "a", "a", "", 400).
+		sched(0, kLoop, "a", "a", "l", 400).sched(200, kLoop, "a", "a", "l", 400).sched(200, kOnce, "a", "a", "l", 400).
+		op(300, kExists, "a", "n").op(300, kExists, "a", "z").op(300, kExists, "a", "").op(300, kDump, "a", "").done(1100))
 	// many jobs per actor, Clear
 	b := newBuilder("directed", "a", "b")
 	for i := 0; i < 6; i++ {
@@ -910,6 +1019,9 @@ func random(r *lib.Rand) scenario {
 			if slot%2 == 0 {
 				lane := (slot / 2) % 2
 				ref := refs[r.Intn(len(refs))]
+				if r.Chance(1, 40) {
+					ref = "" // an empty reference (only possible through WithScheduleOptions)
+				}
 				key := path(name) + ":" + ref
 				u := uses[key]
 				if u.n >= 2 || (u.n == 1 && u.lane == lane) {
@@ -933,7 +1045,11 @@ func random(r *lib.Rand) scenario {
 					}
 					b.sched(t, kOnce, name, recv, ref, d)
 				case x < 90:
-					b.sched(t, kLoop, name, recv, ref, []int{400, 400, 800}[r.Intn(3)])
+					iv := []int{400, 400, 800}[r.Intn(3)]
+					if r.Chance(1, 15) {
+						iv = []int{0, -1000}[r.Intn(2)]
+					}
+					b.sched(t, kLoop, name, recv, ref, iv)
 				default:
 					b.sched(t, kCron, name, recv, ref, 0)
 				}
@@ -1000,16 +1116,18 @@ func tname(sc scenario) string {
 // ---- child processes: scenarios that need the whole process to be suspended or that burn a CPU ----
 
 type childReport struct {
-	Valid     bool     `json:"valid"`
-	Why       string   `json:"why"`
-	Delivered int      `json:"delivered"`
-	Dead      int      `json:"dead"`
-	Exists    bool     `json:"exists"`
-	Keys      []string `json:"keys"`
-	Refs      []string `json:"refs"`
-	LoopCount int      `json:"loop_count"`
-	CPUms     int64    `json:"cpu_ms"`
-	GapMs     int64    `json:"gap_ms"`
+	Valid     bool        `json:"valid"`
+	Why       string      `json:"why"`
+	Delivered int         `json:"delivered"`
+	Dead      int         `json:"dead"`
+	Exists    bool        `json:"exists"`
+	Keys      [][2]string `json:"keys"`
+	Refs      []string    `json:"refs"`
+	LoopCount int         `json:"loop_count"`
+	CPUms     int64       `json:"cpu_ms"`
+	GapMs     int64       `json:"gap_ms"`
+	AtMs      []int64     `json:"at_ms"`   // delivery times, ms after the scheduling call returned
+	LiveMs    int64       `json:"live_ms"` // how long the job had been scheduled at the observation
 }
 
 func cpuTime() time.Duration {
@@ -1019,11 +1137,16 @@ func cpuTime() time.Duration {
 }
 
 // child "stall": Once(800 ms) to self, then the parent suspends the whole process (SIGSTOP) for about 2 s.
-func childStall() {
+// with loop = true: Loop(400 ms) instead of the Once (monitor only: how many firings the stall costs is not exact).
+func childStall(loop bool) {
 	go watchdog()
 	bs := newBuilder("stall", "a")
 	bs.scale = 100
-	sc := bs.sched(0, kOnce, "a", "a", "r", 800).done(3900)
+	kind, delay := kOnce, 800
+	if loop {
+		kind, delay = kLoop, 400
+	}
+	sc := bs.sched(0, kind, "a", "a", "r", delay).done(3900)
 	r := &srun{sc: sc, deathAt: make([]time.Time, 1)}
 	sys := bootstrap.NewActorSystem(vivid.WithActorSystemLogger(log.NewSilentLogger()))
 	if err := sys.Start(); err != nil {
@@ -1041,7 +1164,7 @@ func childStall() {
 	c := r.calls[0]
 	fmt.Println("SCHEDULED")
 	os.Stdout.Sync()
-	// the parent stops the process now; wait until the watchdog has seen the suspension end, then observe for 1600 ms more
+	// the parent stops the process now; wait until the watchdog has seen the suspension end, then observe for 1800 ms more
 	// (in about one run of seven the Go timer of the quartz loop fires a full 800 ms AFTER the process resumes, not at
 	// once: the job is dropped as outdated either way, but only then does it leave the queue)
 	rep := childReport{Valid: true}
@@ -1062,7 +1185,7 @@ func childStall() {
 	}
 	if !ok {
 		rep.Valid, rep.Why = false, "the process was not suspended across the instant"
-	} else if d := time.Until(resumed.Add(1600 * time.Millisecond)); d > 0 {
+	} else if d := time.Until(resumed.Add(1800 * time.Millisecond)); d > 0 {
 		time.Sleep(d)
 	}
 	r.in(0, func(ctx vivid.ActorContext) {
@@ -1077,7 +1200,9 @@ func childStall() {
 		} else {
 			rep.Delivered++
 		}
+		rep.AtMs = append(rep.AtMs, int64(d.at.Sub(c.end)/time.Millisecond))
 	}
+	rep.LiveMs = int64(time.Since(c.end) / time.Millisecond)
 	r.mu.Unlock()
 	if os.Getenv("C20_STALL_DEBUG") != "" {
 		gone := time.Duration(-1)
@@ -1246,7 +1371,11 @@ func raceProbe(trials int) (int, int) {
 
 func main() {
 	if len(os.Args) > 1 && os.Args[1] == "child-stall" {
-		childStall()
+		childStall(false)
+		return
+	}
+	if len(os.Args) > 1 && os.Args[1] == "child-stall-loop" {
+		childStall(true)
 		return
 	}
 	if len(os.Args) > 1 && os.Args[1] == "child-spin" {
@@ -1288,7 +1417,18 @@ func main() {
 		rep *childReport
 		err error
 	}
-	stallCh, spinCh := make(chan childRes, 1), make(chan childRes, 1)
+	stallCh, spinCh, stallLoopCh := make(chan childRes, 1), make(chan childRes, 1), make(chan childRes, 1)
+	go func() {
+		var rep *childReport
+		var err error
+		for attempt := 0; attempt < 3; attempt++ {
+			rep, err = runChild("child-stall-loop", true)
+			if err == nil && rep.Valid {
+				break
+			}
+		}
+		stallLoopCh <- childRes{rep, err}
+	}()
 	go func() {
 		var rep *childReport
 		var err error
@@ -1332,6 +1472,8 @@ func main() {
 	for _, oc := range outs {
 		for _, d := range oc.disturbed {
 			switch {
+			case strings.Contains(d, "canary"):
+				reasons["quartz-late(canary)"]++
 			case strings.Contains(d, "gap"):
 				reasons["gap"]++
 			case strings.Contains(d, "late"):
@@ -1356,7 +1498,7 @@ func main() {
 	st := <-stallCh
 	stallIn := lib.L(
 		lib.L(lib.N(0), lib.S("/a"), lib.S("/a"), lib.S("r"), lib.Z(800), lib.N(1)),
-		lib.L(lib.N(9), lib.Z(2200)), lib.L(lib.N(8), lib.Z(1600)),
+		lib.L(lib.N(9), lib.Z(2200)), lib.L(lib.N(8), lib.Z(1800)),
 		lib.L(lib.N(5), lib.S("/a"), lib.S("r")), lib.L(lib.N(10), lib.L(lib.S("/a"))))
 	if st.err != nil || st.rep == nil || !st.rep.Valid {
 		o.Info["stall"] = fmt.Sprintf("not judged: %v %+v", st.err, st.rep)
@@ -1366,16 +1508,26 @@ func main() {
 		for i, s := range rep.Refs {
 			refs[i] = lib.S(s)
 		}
-		keys := make([]lib.T, len(rep.Keys))
-		for i, s := range rep.Keys {
-			keys[i] = lib.S(s)
-		}
-		out := lib.L(lib.L(lib.N(0), lib.N(4), lib.N(4), lib.L(lib.Bool(rep.Exists)), lib.L(lib.L(lib.L(lib.S("/a"), lib.LS(refs))), lib.LS(keys))),
-			lib.L(lib.L(lib.NI(rep.Delivered), lib.NI(rep.Dead))), lib.N(0))
+		out := lib.L(lib.L(lib.N(0), lib.N(4), lib.N(4), lib.L(lib.Bool(rep.Exists)), lib.L(lib.L(lib.L(lib.S("/a"), lib.LS(refs))), keysTerm(rep.Keys))),
+			lib.L(lib.L(lib.NI(rep.Delivered), lib.NI(rep.Dead))))
 		o.Case("stall", true, stallIn, out)
 		o.Info["stall"] = fmt.Sprintf("process suspended for %d ms across the instant of Once(800 ms): delivered %d, dead-lettered %d, Exists %v, quartz queue %v %s", rep.GapMs, rep.Delivered, rep.Dead, rep.Exists, rep.Keys, rep.Why)
 		if rep.Delivered+rep.Dead == 0 {
-			o.Monitor("c20-once-lost:stall", stallIn, fmt.Sprintf("Once(800 ms) to self, then the process was suspended (SIGSTOP) for %d ms across the instant: after resuming the message was never delivered (observed for a further 1.6 s), Exists(reference) = %v, quartz queue = %v: quartz dropped the job as outdated (OutdatedThreshold 100 ms, RunOnceTrigger expired)", rep.GapMs, rep.Exists, rep.Keys))
+			o.Monitor("c20-once-lost:stall", stallIn, fmt.Sprintf("Once(800 ms) to self, then the process was suspended (SIGSTOP) for %d ms across the instant: after resuming the message was never delivered (observed for a further 1.8 s), Exists(reference) = %v, quartz queue = %v: quartz dropped the job as outdated (OutdatedThreshold 100 ms, RunOnceTrigger expired)", rep.GapMs, rep.Exists, rep.Keys))
+		}
+	}
+	// the same suspension with a Loop(400 ms): firings are skipped, the phase moves (monitor only)
+	sl := <-stallLoopCh
+	if sl.err != nil || sl.rep == nil || !sl.rep.Valid {
+		o.Info["stall_loop"] = fmt.Sprintf("not judged: %v %+v", sl.err, sl.rep)
+	} else {
+		rep := sl.rep
+		n := rep.Delivered + rep.Dead
+		want := int((rep.LiveMs - 100) / 400)
+		o.Info["stall_loop"] = fmt.Sprintf("process suspended for %d ms while a Loop(400 ms) was scheduled: after %d ms %d messages told (at %v ms), one per interval would be %d", rep.GapMs, rep.LiveMs, n, rep.AtMs, want)
+		if n < want-1 {
+			loopIn := lib.L(lib.L(lib.N(1), lib.S("/a"), lib.S("/a"), lib.S("r"), lib.Z(400), lib.N(1)), lib.L(lib.N(9), lib.Z(2200)), lib.L(lib.N(8), lib.Z(1800)))
+			o.Monitor("c20-loop-lost:stall", loopIn, fmt.Sprintf("Loop(400 ms) to self, then the process was suspended (SIGSTOP) for %d ms: %d ms after the call only %d messages had been told (at %v ms after the call) instead of one per interval (%d): quartz skips the firings that are more than OutdatedThreshold = 100 ms late and continues at (now + interval)", rep.GapMs, rep.LiveMs, n, rep.AtMs, want))
 		}
 	}
 	// Loop with a negative interval starves every other job of the system
@@ -1384,10 +1536,10 @@ func main() {
 		o.Info["spin"] = fmt.Sprintf("not judged: %v %+v", sp.err, sp.rep)
 	} else {
 		o.Info["spin"] = fmt.Sprintf("Loop(-1 s) on /a, Once(300 ms) on /b, 1.5 s: loop deliveries %d, the Once delivered %d times, CPU time %d ms", sp.rep.LoopCount, sp.rep.Delivered, sp.rep.CPUms)
-		if sp.rep.Delivered == 0 {
+		if sp.rep.Delivered != 1 {
 			spinIn := lib.L(lib.L(lib.N(1), lib.S("/a"), lib.S("/a"), lib.S("l"), lib.Z(-1000), lib.N(1)), lib.L(lib.N(8), lib.Z(0)),
 				lib.L(lib.N(0), lib.S("/b"), lib.S("/b"), lib.S("o"), lib.Z(300), lib.N(2)), lib.L(lib.N(8), lib.Z(1500)))
-			o.Monitor("c20-once-lost:spin", spinIn, fmt.Sprintf("Loop with interval -1 s on /a returned nil; Once(300 ms) on /b returned nil and was never delivered within 1.5 s; the process used %d ms of CPU: the quartz loop spins on the outdated SimpleTrigger and every other job becomes outdated behind it", sp.rep.CPUms))
+			o.Monitor("c20-once-lost:spin", spinIn, fmt.Sprintf("Loop with interval -1 s on /a; Once(300 ms) on /b returned nil and was delivered %d times within 1.5 s (loop deliveries %d); the process used %d ms of CPU: the quartz loop spins on the outdated SimpleTrigger and every other job becomes outdated behind it", sp.rep.Delivered, sp.rep.LoopCount, sp.rep.CPUms))
 		}
 	}
 	trials := 60
